@@ -44,7 +44,7 @@ func (S *LevelDbStore) StartUpdateCrl(info *crlreader.CRLMetaInfo) error {
 }
 
 func (S *LevelDbStore) InsertRevokedCert(entry *crlreader.CRLEntry) error {
-	s := entry.Issuer.String() + "_" + entry.RevokedCertificate.SerialNumber.String()
+	s := core.NameIdentity(entry.Issuer) + "_" + entry.RevokedCertificate.SerialNumber.String()
 	revokedCertBytes, err := S.Serializer.SerializeRevokedCert(entry.RevokedCertificate)
 	if err != nil {
 		return fmt.Errorf("could not serialize CRLEntry: %v", err)
@@ -57,7 +57,7 @@ func (S *LevelDbStore) InsertRevokedCert(entry *crlreader.CRLEntry) error {
 	return nil
 }
 func (S *LevelDbStore) GetCertRevocationStatus(issuer *pkix.RDNSequence, certSerial *big.Int) (*core.RevocationStatus, error) {
-	s := issuer.String() + "_" + certSerial.String()
+	s := core.NameIdentity(issuer) + "_" + certSerial.String()
 	hash := hashing.Sum64(s)
 	revokedCertBytes, err := S.Db.Get(hash, nil)
 	revoked := false
